@@ -84,6 +84,7 @@ type Contract struct {
 	Props    []string          // properties this contract serves
 	Witness  map[string]map[string]Expr // clause label -> bound variable -> witness expression
 	Skips    []SkipClause
+	Invokes  []string  // function-typed parameters the function calls at most once (higher-order protocol)
 	Callback []*Clause // assumed after every dynamic (user callback) call inside the function (A-user)
 	File     string
 	Line     int
@@ -576,7 +577,7 @@ var clauseKeywords = map[string]bool{
 	"modifies": true, "loop": true, "panics": true, "trusted": true, "lemma": true,
 	"axiom": true, "inline": true, "returns": true, "props": true, "noframe": true,
 	"K": true, "F": true, "guarded": true, "hyp": true, "concl": true, "vars": true,
-	"opaque": true, "uninterp": true, "witness": true, "skip": true, "callback": true,
+	"opaque": true, "uninterp": true, "witness": true, "skip": true, "callback": true, "invokes": true,
 }
 
 type rawLine struct {
@@ -716,6 +717,11 @@ func readSpecFile(path string) (*SpecFile, error) {
 			case "modifies":
 				cur.Modifies = append(cur.Modifies, c)
 			}
+		case "invokes":
+			if cur == nil {
+				return nil, fail(rl, "invokes outside func")
+			}
+			cur.Invokes = append(cur.Invokes, strings.Fields(strings.ReplaceAll(rest, ",", " "))...)
 		case "callback":
 			if cur == nil {
 				return nil, fail(rl, "callback outside func")
